@@ -867,6 +867,137 @@ theorem session_next_sound (eq : Char → Char → Bool) (s : Sess) (hwf : SessW
   · rw [h1]; exact key _
   · rw [h2]; exact key _
 
+/-! ## progress, and the property per key -/
+
+/-- a forward step that excludes the cursor position and finds something ahead moves strictly
+    forward in document order -/
+theorem search_fwd_progress (eq : Char → Char → Bool) (ls : List Text) (sub : Text)
+    (w c i p : Nat) (hwf : WF ls (w, c))
+    (h : searchOnce eq ls sub .fwd false (w, c) = some (i, p))
+    (j q : Nat) (hocc : Occ eq ls sub j q) (hah : AheadF false w c j q) :
+    Before (w, c) (i, p) := by
+  obtain ⟨hah', _⟩ := search_nearest_fwd eq ls sub false w c i p hwf h j q hocc hah
+  rcases hah' with ⟨rfl, hp⟩ | hlt
+  · right; simp [lo] at hp; exact ⟨rfl, by simp only; omega⟩
+  · left; exact hlt
+
+/-- a backward step for a non-empty needle that finds something ahead moves strictly backward -/
+theorem search_bwd_progress (eq : Char → Char → Bool) (ls : List Text) (sub : Text) (incl : Bool)
+    (w c i p : Nat) (hwf : WF ls (w, c)) (hne : sub ≠ [])
+    (h : searchOnce eq ls sub .bwd incl (w, c) = some (i, p))
+    (j q : Nat) (hocc : Occ eq ls sub j q) (hah : AheadB sub w c j q) :
+    Before (i, p) (w, c) := by
+  obtain ⟨hah', _⟩ := search_nearest_bwd eq ls sub incl w c i p hwf h j q hocc hah
+  have : 0 < sub.length := List.length_pos_iff.2 hne
+  rcases hah' with ⟨rfl, hp⟩ | hlt
+  · right; exact ⟨rfl, by simp only; omega⟩
+  · left; exact hlt
+
+/-- ACCEPT finds the nearest occurrence ahead (complete + sound + nearest), both directions:
+    Enter after typing a needle that occurs ahead lands exactly on the nearest such occurrence. -/
+theorem session_accept_nearest (eq : Char → Char → Bool) (s : Sess) (hwf : SessWF s)
+    (hs : s.searching = true) (hf : s.field ≠ []) (j q : Nat)
+    (hocc : Occ eq s.buf.lines s.field j q)
+    (b' : Buf) (hb' : b' = (step eq false s .accept).buf) :
+    (s.sdir = .fwd → AheadF true s.buf.widx s.buf.cur j q →
+        Occ eq s.buf.lines s.field b'.widx b'.cur ∧ AheadF true s.buf.widx s.buf.cur b'.widx b'.cur ∧
+          ¬ Before (j, q) (b'.widx, b'.cur)) ∧
+    (s.sdir = .bwd → AheadB s.field s.buf.widx s.buf.cur j q →
+        Occ eq s.buf.lines s.field b'.widx b'.cur ∧
+          AheadB s.field s.buf.widx s.buf.cur b'.widx b'.cur ∧ ¬ Before (b'.widx, b'.cur) (j, q)) := by
+  have hne : s.field.isEmpty = false := by simpa using hf
+  have hb : (step eq false s .accept).buf = applySearch eq s.buf s.field s.sdir true 1 := by
+    simp [step, hs, hne, stopSearch]
+  rw [hb] at hb'
+  constructor
+  · intro hd hah
+    rw [hd] at hb'; subst hb'
+    exact applySearch_nearest_fwd eq s.buf s.field true hwf j q hocc hah
+  · intro hd hah
+    rw [hd] at hb'; subst hb'
+    exact applySearch_nearest_bwd eq s.buf s.field true hwf j q hocc hah
+
+/-- NEXT (same direction) finds the nearest occurrence ahead, the current position excluded -/
+theorem session_incr_nearest (eq : Char → Char → Bool) (vi : Bool) (s : Sess) (hwf : SessWF s)
+    (hs : s.searching = true) (j q : Nat) (hocc : Occ eq s.buf.lines s.field j q)
+    (b' : Buf) (hb' : b' = (step eq vi s (.incr s.sdir)).buf) :
+    (s.sdir = .fwd → AheadF false s.buf.widx s.buf.cur j q →
+        Occ eq s.buf.lines s.field b'.widx b'.cur ∧ AheadF false s.buf.widx s.buf.cur b'.widx b'.cur ∧
+          ¬ Before (j, q) (b'.widx, b'.cur)) ∧
+    (s.sdir = .bwd → AheadB s.field s.buf.widx s.buf.cur j q →
+        Occ eq s.buf.lines s.field b'.widx b'.cur ∧
+          AheadB s.field s.buf.widx s.buf.cur b'.widx b'.cur ∧ ¬ Before (b'.widx, b'.cur) (j, q)) := by
+  have hb : (step eq vi s (.incr s.sdir)).buf = applySearch eq s.buf s.field s.sdir false 1 := by
+    rw [(session_incr eq vi s s.sdir hs).1]; simp
+  rw [hb] at hb'
+  constructor
+  · intro hd hah
+    rw [hd] at hb'; subst hb'
+    exact applySearch_nearest_fwd eq s.buf s.field false hwf j q hocc hah
+  · intro hd hah
+    rw [hd] at hb'; subst hb'
+    exact applySearch_nearest_bwd eq s.buf s.field false hwf j q hocc hah
+
+/-- C16 per key, Emacs mode: whatever search key is pressed in whatever state, the searched buffer
+    stays exactly as it was, or ends on a real occurrence of the needle in force (the typed field,
+    or — Enter in an empty field — the remembered needle). -/
+theorem step_search_sound (eq : Char → Char → Bool) (s : Sess) (k : Key) (hwf : SessWF s)
+    (hk : (∀ c, k ≠ .type c) ∨ s.searching = true) :
+    (step eq false s k).buf = s.buf ∨
+      ∃ sub, (sub = s.field ∨ sub = s.stext) ∧
+        Occ eq s.buf.lines sub (step eq false s k).buf.widx (step eq false s k).buf.cur := by
+  cases k with
+  | start d => left; exact start_frame eq false s d
+  | type c =>
+    rcases hk with hk | hk
+    · exact absurd rfl (hk c)
+    · left; rw [type_frame eq false s c hk]
+  | backspace =>
+    left
+    simp only [step]
+    split
+    · split <;> simp
+    · rfl
+  | incr d =>
+    by_cases hs : s.searching = true
+    · rcases session_incr_sound eq false s d hwf hs with h | h
+      · left; exact h
+      · right; exact ⟨s.field, Or.inl rfl, h⟩
+    · left; simp [step, hs]
+  | accept =>
+    by_cases hs : s.searching = true
+    · simp only [step, hs, if_true, stopSearch, Bool.false_eq_true, if_false]
+      split
+      · rcases applySearch_unchanged_or_occ eq s.buf s.field s.sdir true 1 (by omega) hwf with h | h
+        · left; exact h
+        · right; exact ⟨s.field, Or.inl rfl, h⟩
+      · rcases applySearch_unchanged_or_occ eq s.buf s.stext s.sdir true 1 (by omega) hwf with h | h
+        · left; exact h
+        · right; exact ⟨s.stext, Or.inr rfl, h⟩
+    · left; simp [step, hs]
+  | abort =>
+    left
+    rw [abort_frame]; simp
+  | next n => left; simp [step]
+  | prev n => left; simp [step]
+
+/-- Vi mode: no key sequence whatsoever changes any text (printable keys in navigation mode are
+    outside the model and leave the state alone) -/
+theorem run_lines_frame_vi (eq : Char → Char → Bool) (s : Sess) (ks : List Key) :
+    (run eq true s ks).buf.lines = s.buf.lines := by
+  induction ks generalizing s with
+  | nil => rfl
+  | cons k ks ih =>
+    simp only [run]
+    rw [ih]
+    by_cases hk : ∀ c, k ≠ .type c
+    · exact step_lines_frame eq true s k (Or.inl hk)
+    · simp only [not_forall, not_not] at hk
+      obtain ⟨c, rfl⟩ := hk
+      by_cases hs : s.searching = true
+      · exact step_lines_frame eq true s _ (Or.inr hs)
+      · simp [step, hs]
+
 /-! ## non-vacuity: the hypotheses of the theorems hold on concrete, non-trivial states
     (and the model computes what the real editor shows there) -/
 
@@ -982,6 +1113,20 @@ example : (run eqCS true { S0 with buf := viFix S0.buf } [.start .bwd, .type 'a'
 example : viFix ⟨[['a', 'b', '\n', 'c']], 0, 2⟩ = ⟨[['a', 'b', '\n', 'c']], 0, 1⟩ ∧
     viFix ⟨[['a', 'b', '\n', '\n', 'c']], 0, 3⟩ = ⟨[['a', 'b', '\n', '\n', 'c']], 0, 3⟩ ∧
     viFix ⟨[['a', 'b']], 0, 2⟩ = ⟨[['a', 'b']], 0, 1⟩ := ⟨by decide, by decide, by decide⟩
+
+-- session_accept_nearest / session_incr_nearest / step_search_sound / search_bwd_progress:
+-- in the state after `C-r a b` the nearest occurrence ahead (backward) is (entry 1, offset 4)
+example :
+    let s := run eqCS false S0 [.start .bwd, .type 'a', .type 'b']
+    SessWF s ∧ s.searching = true ∧ s.field ≠ [] ∧ s.sdir = .bwd ∧
+      Occ eqCS s.buf.lines s.field 1 4 ∧ AheadB s.field s.buf.widx s.buf.cur 1 4 ∧
+      (step eqCS false s .accept).buf = ⟨L1, 1, 4⟩ ∧ Before (1, 4) (s.buf.widx, s.buf.cur) :=
+  ⟨by unfold SessWF BufWF WF; decide, by decide, by decide, by decide,
+    ⟨by decide, occ_of _ _ _ _ (by decide) (by decide)⟩, by unfold AheadB; decide, by decide,
+    by unfold Before; decide⟩
+-- run_lines_frame_vi
+example : (run eqCS true S0 [.type 'x', .start .fwd, .type 'a', .incr .fwd, .accept, .next 3, .type 'y']).buf.lines
+    = L1 := by decide
 
 /-! ### observations (behaviour the property does not forbid, recorded exactly) -/
 
